@@ -11,10 +11,11 @@ import (
 // points are still exercised, the component-level operations answer "nohooks"
 const hooksAvailable = false
 
-func hkResolve(t reflect.Type) (string, error)     { return "", errors.New("nohooks") }
-func hkSpan(reqs [][2]int) [][3]int                { return nil }
-func hkBitset(ops [][2]int) []bool                 { return nil }
-func hkDescMap(ops [][3]int) []int                 { return nil }
-func hkUnknown(b []byte, adds [][2]int) []byte     { return nil }
-func hkDispatch() []string                         { return nil }
-func hkUnknownOps(b []byte, ops [][3]int) [][]byte { return nil }
+func hkResolve(t reflect.Type) (string, error)            { return "", errors.New("nohooks") }
+func hkSpan(reqs [][2]int) [][3]int                       { return nil }
+func hkBitset(ops [][2]int) []bool                        { return nil }
+func hkDescMap(ops [][3]int) []int                        { return nil }
+func hkUnknown(b []byte, adds [][2]int) []byte            { return nil }
+func hkDispatch() []string                                { return nil }
+func hkUnknownOps(b []byte, ops [][3]int) [][]byte        { return nil }
+func hkDesc(t reflect.Type, probes []int) (string, error) { return "", errors.New("nohooks") }
